@@ -6,6 +6,7 @@ import (
 	"fmt"
 	"math/big"
 	"math/rand"
+	"reflect"
 	"strconv"
 	"strings"
 	"time"
@@ -82,14 +83,195 @@ func u64s(v []uint64) string {
 }
 
 var c20Ops = map[int][]string{
-	1: {"shl", "shr", "shl64", "shr64", "add", "sub", "mul", "cmp", "and", "or", "xor", "not", "to128", "to256"},
-	2: {"shl", "shr", "add", "add64", "sub", "mul", "mul64", "quorem", "quorem64", "cmp", "cmp64", "and", "or", "xor", "not", "to64", "to256"},
-	4: {"shl", "shr", "add", "sub", "mul", "div", "cmp", "and", "or", "xor", "not", "to64", "to128"},
+	1: {"shl", "shr", "shl64", "shr64", "add", "sub", "mul", "cmp", "and", "or", "xor", "not", "to64", "to128", "to256",
+		"add64", "sub64", "mul64", "zero", "max", "iszero", "set64", "asu64", "eq", "lt", "gt", "le", "ge", "from64"},
+	2: {"shl", "shr", "add", "add64", "sub", "mul", "mul64", "quorem", "quorem64", "cmp", "cmp64", "and", "or", "xor", "not",
+		"to64", "to128", "to256", "div", "mod", "div64", "mod64", "zero", "max", "iszero", "set64", "asu64",
+		"eq", "lt", "gt", "le", "ge", "from64"},
+	4: {"shl", "shr", "add", "sub", "mul", "div", "cmp", "and", "or", "xor", "not", "to64", "to128", "to256",
+		"zero", "max", "iszero", "set64", "asu64", "eq", "lt", "gt", "le", "ge", "from64"},
+}
+
+// binary operations (two operands of the receiver's width) and unary operations, per width: used by the boundary corpus
+var c20Binary = map[int][]string{
+	1: {"add", "sub", "mul", "cmp", "and", "or", "xor", "eq", "lt", "gt", "le", "ge", "mul64"},
+	2: {"add", "sub", "mul", "quorem", "div", "mod", "cmp", "and", "or", "xor", "eq", "lt", "gt", "le", "ge"},
+	4: {"add", "sub", "mul", "div", "cmp", "and", "or", "xor", "eq", "lt", "gt", "le", "ge"},
+}
+var c20Unary = []string{"not", "to64", "to128", "to256", "zero", "max", "iszero", "asu64"}
+
+// operations taking a 64-bit word as second operand
+var c20Word = map[int][]string{
+	1: {"set64"},
+	2: {"add64", "mul64", "quorem64", "div64", "mod64", "cmp64", "set64"},
+	4: {"set64"},
+}
+
+// shift amounts around every limb boundary, the width, and far beyond (the Go parameter is a `uint`)
+var c20Shifts = []uint64{0, 1, 31, 63, 64, 65, 127, 128, 129, 191, 192, 193, 255, 256, 257, 300, 319, 320, 1 << 32, 1 << 63, ^uint64(0)}
+
+// c20BoundaryVals returns the word-boundary values of a width: 2^k-1, 2^k, 2^k+1 around every limb boundary, the
+// extremes and two alternating patterns (quick: the short list asked for by the property text; thorough: all)
+func c20BoundaryVals(limbs int, tier string) [][]uint64 {
+	bitsW := uint(64 * limbs)
+	one := big.NewInt(1)
+	mod := new(big.Int).Lsh(one, bitsW)
+	seen := map[string]bool{}
+	var out [][]uint64
+	add := func(b *big.Int) {
+		if b.Sign() < 0 || b.Cmp(mod) >= 0 {
+			return
+		}
+		k := b.String()
+		if !seen[k] {
+			seen[k] = true
+			out = append(out, fromBig(b, limbs))
+		}
+	}
+	add(big.NewInt(0))
+	add(big.NewInt(1))
+	add(big.NewInt(2))
+	add(new(big.Int).Sub(mod, one))
+	add(new(big.Int).Sub(mod, big.NewInt(2)))
+	ks := []uint{63, 64, 127, 128, 191, 192, 255}
+	if tier == "thorough" {
+		ks = []uint{1, 31, 32, 33, 62, 63, 64, 65, 95, 126, 127, 128, 129, 190, 191, 192, 193, 254, 255}
+	}
+	for _, k := range ks {
+		if k >= bitsW {
+			continue
+		}
+		p := new(big.Int).Lsh(one, k)
+		add(new(big.Int).Sub(p, one))
+		add(p)
+		if tier == "thorough" || k%64 == 0 {
+			add(new(big.Int).Add(p, one))
+		}
+	}
+	if limbs == 1 {
+		for _, k := range []uint{31, 32, 33} {
+			p := new(big.Int).Lsh(one, k)
+			add(p)
+			add(new(big.Int).Sub(p, one))
+		}
+	}
+	if tier == "thorough" {
+		pat := make([]uint64, limbs)
+		for i := range pat {
+			pat[i] = 0xaaaaaaaaaaaaaaaa
+		}
+		add(toBig(pat))
+		for i := range pat {
+			pat[i] = 0x5555555555555555
+		}
+		add(toBig(pat))
+		for i := 0; i < limbs; i++ { // all-ones in exactly one limb
+			q := make([]uint64, limbs)
+			q[i] = ^uint64(0)
+			add(toBig(q))
+		}
+	}
+	return out
+}
+
+// c20Corpus: the fixed, boundary-heavy part of the case stream (every exported method on every boundary value /
+// pair of boundary values, every boundary shift amount)
+// keep(limbs, op) thins the pair cases: the Lean transcription of the quadratic shift-and-subtract Uint256.Div needs
+// milliseconds per boundary pair (quotients of 200+ bits), everything else is microseconds.  Quick: every pair for
+// every method, except Uint256.Div on one pair in two (drawn from the seed).  Thorough: the quick list likewise,
+// then the extended value list with one pair in three per seed (8 seeds: a given pair is missed by all of them
+// with probability (2/3)^8 = 4 %).
+func c20Corpus(tier string, keep func(limbs int, op string) bool, emit func(string)) {
+	words := []uint64{0, 1, 2, 1<<32 - 1, 1 << 32, 1<<63 - 1, 1 << 63, ^uint64(0) - 1, ^uint64(0)}
+	for _, limbs := range []int{1, 2, 4} {
+		w := c20Name(limbs)
+		vals := c20BoundaryVals(limbs, tier)
+		for _, op := range []string{"zerouint", "oneuint"} {
+			emit(fmt.Sprintf("%s %s", w, op))
+		}
+		for _, x := range words {
+			emit(fmt.Sprintf("%s from64 %d", w, x))
+		}
+		for _, a := range vals {
+			for _, op := range c20Unary {
+				emit(fmt.Sprintf("%s %s %s", w, op, u64s(a)))
+			}
+			for _, sh := range c20Shifts {
+				emit(fmt.Sprintf("%s shl %s %d", w, u64s(a), sh))
+				emit(fmt.Sprintf("%s shr %s %d", w, u64s(a), sh))
+			}
+			for _, op := range c20Word[limbs] {
+				for _, x := range words {
+					emit(fmt.Sprintf("%s %s %s %d", w, op, u64s(a), x))
+				}
+			}
+			for _, b := range vals {
+				for _, op := range c20Binary[limbs] {
+					if keep(limbs, op) {
+						emit(fmt.Sprintf("%s %s %s %s", w, op, u64s(a), u64s(b)))
+					}
+				}
+			}
+		}
+		if limbs == 1 {
+			carries := []uint64{0, 1, 1 << 63, ^uint64(0), 0xaaaaaaaaaaaaaaaa, 0x8000000000000001}
+			for _, a := range vals {
+				for _, sh := range c20Shifts {
+					for _, c := range carries {
+						emit(fmt.Sprintf("u64 shl64 %s %d %d", u64s(a), sh, c))
+						emit(fmt.Sprintf("u64 shr64 %s %d %d", u64s(a), sh, c))
+					}
+				}
+				for _, b := range vals {
+					for c := 0; c <= 1; c++ { // bits.Add64/Sub64: the carry input must be 0 or 1
+						emit(fmt.Sprintf("u64 add64 %s %s %d", u64s(a), u64s(b), c))
+						emit(fmt.Sprintf("u64 sub64 %s %s %d", u64s(a), u64s(b), c))
+					}
+				}
+			}
+		}
+	}
 }
 
 func c20Name(limbs int) string { return map[int]string{1: "u64", 2: "u128", 4: "u256"}[limbs] }
 
+// c20Method maps every exported obifp method to the case-line operation that exercises it; Gen compares the table
+// with the method sets found by reflection, so that a method added to the package later shows up in the statistics
+// (methods-uncovered:<type>.<name>) instead of silently staying outside the check.
+var c20Method = map[string]string{
+	"Zero": "zero", "MaxValue": "max", "IsZero": "iszero", "Uint64": "to64", "Uint128": "to128", "Uint256": "to256",
+	"Set64": "set64", "LeftShift64": "shl64", "RightShift64": "shr64", "Add64": "add64", "Sub64": "sub64", "Mul64": "mul64",
+	"LeftShift": "shl", "RightShift": "shr", "Add": "add", "Sub": "sub", "Mul": "mul", "Cmp": "cmp", "Cmp64": "cmp64",
+	"Equals": "eq", "LessThan": "lt", "GreaterThan": "gt", "LessThanOrEqual": "le", "GreaterThanOrEqual": "ge",
+	"And": "and", "Or": "or", "Xor": "xor", "Not": "not", "AsUint64": "asu64", "QuoRem": "quorem", "QuoRem64": "quorem64",
+	"Div": "div", "Div64": "div64", "Mod": "mod", "Mod64": "mod64",
+}
+
+func c20MethodCoverage() {
+	for limbs, t := range map[int]reflect.Type{1: reflect.TypeOf(obifp.Uint64{}), 2: reflect.TypeOf(obifp.Uint128{}), 4: reflect.TypeOf(obifp.Uint256{})} {
+		for i := 0; i < t.NumMethod(); i++ {
+			name := t.Method(i).Name
+			if strings.HasPrefix(name, "Verif") { // hooks of verif_hooks.go
+				continue
+			}
+			op, ok := c20Method[name]
+			if ok {
+				ok = false
+				for _, o := range c20Ops[limbs] {
+					ok = ok || o == op
+				}
+			}
+			if ok {
+				stat("methods-covered:" + t.Name())
+			} else {
+				stat("methods-uncovered:" + t.Name() + "." + name)
+			}
+		}
+	}
+}
+
 func (c20) Gen(rng *rand.Rand, tier string, emit func(string)) {
+	c20MethodCoverage()
 	n := 12000
 	if tier == "thorough" {
 		n = 400000
@@ -107,6 +289,10 @@ func (c20) Gen(rng *rand.Rand, tier string, emit func(string)) {
 			}
 		}
 	}
+	c20Corpus("quick", func(limbs int, op string) bool { return !(limbs == 4 && op == "div") || rng.Intn(2) == 0 }, emit)
+	if tier == "thorough" {
+		c20Corpus(tier, func(limbs int, op string) bool { return rng.Intn(3) == 0 }, emit)
+	}
 	for i := 0; i < n; i++ {
 		limbs := []int{1, 2, 4}[rng.Intn(3)]
 		ops := c20Ops[limbs]
@@ -115,13 +301,28 @@ func (c20) Gen(rng *rand.Rand, tier string, emit func(string)) {
 		var c string
 		switch op {
 		case "shl", "shr":
-			c = fmt.Sprintf("%s %s %s %d", c20Name(limbs), op, u64s(a), rng.Intn(limbs*64+65))
+			sh := uint64(rng.Intn(limbs*64 + 65))
+			if rng.Intn(8) == 0 {
+				sh = c20Shifts[rng.Intn(len(c20Shifts))]
+			}
+			c = fmt.Sprintf("%s %s %s %d", c20Name(limbs), op, u64s(a), sh)
 		case "shl64", "shr64":
 			c = fmt.Sprintf("%s %s %s %d %d", c20Name(limbs), op, u64s(a), rng.Intn(140), c20Limb(rng))
-		case "not", "to64", "to128", "to256":
+		case "not", "to64", "to128", "to256", "zero", "max", "iszero", "asu64":
 			c = fmt.Sprintf("%s %s %s", c20Name(limbs), op, u64s(a))
-		case "add64", "mul64", "quorem64", "cmp64":
+		case "from64":
+			c = fmt.Sprintf("%s %s %d", c20Name(limbs), op, c20Limb(rng))
+		case "quorem64", "cmp64", "div64", "mod64", "set64":
 			c = fmt.Sprintf("%s %s %s %d", c20Name(limbs), op, u64s(a), c20Limb(rng))
+		case "add64", "mul64", "sub64":
+			switch {
+			case limbs == 1 && op == "mul64":
+				c = fmt.Sprintf("u64 mul64 %s %d", u64s(a), c20Limb(rng))
+			case limbs == 1: // carry forms: bits.Add64/Sub64 define the carry input for 0 and 1 only
+				c = fmt.Sprintf("u64 %s %s %d %d", op, u64s(a), c20Limb(rng), rng.Intn(2))
+			default:
+				c = fmt.Sprintf("%s %s %s %d", c20Name(limbs), op, u64s(a), c20Limb(rng))
+			}
 		default:
 			b := c20Val(rng, limbs)
 			if rng.Intn(6) == 0 { // near-equal operands: cmp/sub/div edge cases
@@ -160,7 +361,7 @@ func okv(v []uint64) string { return "ok " + u64s(v) }
 
 func (c20) Exec(c string) (string, []Fail) {
 	f := strings.Fields(c)
-	if len(f) < 3 {
+	if len(f) < 2 {
 		return "bad-op", nil
 	}
 	limbs := map[string]int{"u64": 1, "u128": 2, "u256": 4}[f[0]]
@@ -177,13 +378,129 @@ func (c20) Exec(c string) (string, []Fail) {
 		a = append(a, x)
 	}
 	stat("op:" + f[0] + "." + op)
+	c20BranchStats(limbs, op, a)
 	res := guardT(2*time.Second, func() string { return c20Run(limbs, op, a) })
 	stat("outcome:" + strings.Fields(res)[0])
 	return res, c20Oracle(limbs, f[0], op, a, res)
 }
 
+func c20B(b bool) string {
+	if b {
+		return "b true"
+	}
+	return "b false"
+}
+
+// c20BranchStats records which branch of the anchored code a case reaches (shift amount classes, QuoRem paths)
+func c20BranchStats(limbs int, op string, a []uint64) {
+	switch op {
+	case "shl", "shr", "shl64", "shr64":
+		idx := limbs
+		if op == "shl64" || op == "shr64" {
+			idx = 1
+		}
+		if len(a) <= idx {
+			return
+		}
+		n, w := a[idx], uint64(64*limbs)
+		cl := ""
+		switch {
+		case n == 0:
+			cl = "n=0"
+		case n < 64:
+			cl = "0<n<64"
+		case n%64 == 0 && n < w:
+			cl = "whole-limbs<w"
+		case n < w:
+			cl = "64<n<w"
+		case n == w:
+			cl = "n=w"
+		case n < w+64:
+			cl = "w<n<w+64"
+		default:
+			cl = "n>=w+64"
+		}
+		stat("branch:" + op + ":" + cl)
+	case "quorem", "div", "mod":
+		if limbs == 2 && len(a) == 4 {
+			switch {
+			case a[2] == 0 && a[3] == 0:
+				stat("branch:quorem:v=0")
+			case a[2] == 0 && a[0] < a[3]:
+				stat("branch:quorem:v.w1=0,one-Div64")
+			case a[2] == 0:
+				stat("branch:quorem:v.w1=0,two-Div64")
+			default:
+				// trial quotient path; the correction step runs iff the trial quotient is one too small
+				u, v := toBig(a[:2]), toBig(a[2:])
+				q := new(big.Int).Quo(u, v)
+				n := uint(0)
+				for x := a[2]; x>>63 == 0; x <<= 1 {
+					n++
+				}
+				v1 := new(big.Int).Rsh(new(big.Int).Lsh(v, n), 64) // high limb of v << n
+				tq := new(big.Int).Quo(new(big.Int).Rsh(u, 1), v1)
+				tq.Rsh(tq, 63-n)
+				if tq.Sign() != 0 {
+					tq.Sub(tq, big.NewInt(1))
+				}
+				if tq.Cmp(q) == 0 {
+					stat("branch:quorem:trial-exact")
+				} else {
+					stat("branch:quorem:trial-corrected")
+				}
+			}
+		}
+		if limbs == 4 && len(a) == 8 && op == "div" {
+			u, v := toBig(a[:4]), toBig(a[4:])
+			switch {
+			case v.Sign() == 0:
+				stat("branch:div256:v=0")
+			case u.Cmp(v) < 0:
+				stat("branch:div256:u<v")
+			case v.Cmp(big.NewInt(1)) == 0:
+				stat("branch:div256:v=1")
+			case u.Bit(255) == 1:
+				stat("branch:div256:loop,top-bit-set")
+			default:
+				stat("branch:div256:loop")
+			}
+		}
+	}
+}
+
 func c20Run(limbs int, op string, a []uint64) string {
 	bad := "bad-op"
+	// unint.go: the generic constructors, instantiated at the three widths
+	switch {
+	case op == "zerouint" && len(a) == 0:
+		switch limbs {
+		case 1:
+			return okv(obifp.ZeroUint[obifp.Uint64]().VerifLimbs())
+		case 2:
+			return okv(obifp.ZeroUint[obifp.Uint128]().VerifLimbs())
+		case 4:
+			return okv(obifp.ZeroUint[obifp.Uint256]().VerifLimbs())
+		}
+	case op == "oneuint" && len(a) == 0:
+		switch limbs {
+		case 1:
+			return okv(obifp.OneUint[obifp.Uint64]().VerifLimbs())
+		case 2:
+			return okv(obifp.OneUint[obifp.Uint128]().VerifLimbs())
+		case 4:
+			return okv(obifp.OneUint[obifp.Uint256]().VerifLimbs())
+		}
+	case op == "from64" && len(a) == 1:
+		switch limbs {
+		case 1:
+			return okv(obifp.From64[obifp.Uint64](a[0]).VerifLimbs())
+		case 2:
+			return okv(obifp.From64[obifp.Uint128](a[0]).VerifLimbs())
+		case 4:
+			return okv(obifp.From64[obifp.Uint256](a[0]).VerifLimbs())
+		}
+	}
 	switch limbs {
 	case 1:
 		if len(a) < 1 {
@@ -222,10 +539,41 @@ func c20Run(limbs int, op string, a []uint64) string {
 			return okv(u.Xor(v).VerifLimbs())
 		case op == "not" && need(1):
 			return okv(u.Not().VerifLimbs())
+		case op == "to64" && need(1):
+			return okv(u.Uint64().VerifLimbs())
 		case op == "to128" && need(1):
 			return okv(u.Uint128().VerifLimbs())
 		case op == "to256" && need(1):
 			return okv(u.Uint256().VerifLimbs())
+		case op == "add64" && need(3):
+			x, y := u.Add64(v, a[2])
+			return okv([]uint64{x, y})
+		case op == "sub64" && need(3):
+			x, y := u.Sub64(v, a[2])
+			return okv([]uint64{x, y})
+		case op == "mul64" && need(2):
+			x, y := u.Mul64(v)
+			return okv([]uint64{x, y})
+		case op == "zero" && need(1):
+			return okv(u.Zero().VerifLimbs())
+		case op == "max" && need(1):
+			return okv(u.MaxValue().VerifLimbs())
+		case op == "iszero" && need(1):
+			return c20B(u.IsZero())
+		case op == "set64" && need(2):
+			return okv(u.Set64(a[1]).VerifLimbs())
+		case op == "asu64" && need(1):
+			return okv([]uint64{u.AsUint64()})
+		case op == "eq" && need(2):
+			return c20B(u.Equals(v))
+		case op == "lt" && need(2):
+			return c20B(u.LessThan(v))
+		case op == "gt" && need(2):
+			return c20B(u.GreaterThan(v))
+		case op == "le" && need(2):
+			return c20B(u.LessThanOrEqual(v))
+		case op == "ge" && need(2):
+			return c20B(u.GreaterThanOrEqual(v))
 		}
 	case 2:
 		if len(a) < 2 {
@@ -272,8 +620,38 @@ func c20Run(limbs int, op string, a []uint64) string {
 			return okv(u.Not().VerifLimbs())
 		case op == "to64" && need(2):
 			return okv(u.Uint64().VerifLimbs())
+		case op == "to128" && need(2):
+			return okv(u.Uint128().VerifLimbs())
 		case op == "to256" && need(2):
 			return okv(u.Uint256().VerifLimbs())
+		case op == "div" && need(4):
+			return okv(u.Div(v).VerifLimbs())
+		case op == "mod" && need(4):
+			return okv(u.Mod(v).VerifLimbs())
+		case op == "div64" && need(3):
+			return okv(u.Div64(a[2]).VerifLimbs())
+		case op == "mod64" && need(3):
+			return okv([]uint64{u.Mod64(a[2])})
+		case op == "zero" && need(2):
+			return okv(u.Zero().VerifLimbs())
+		case op == "max" && need(2):
+			return okv(u.MaxValue().VerifLimbs())
+		case op == "iszero" && need(2):
+			return c20B(u.IsZero())
+		case op == "set64" && need(3):
+			return okv(u.Set64(a[2]).VerifLimbs())
+		case op == "asu64" && need(2):
+			return okv([]uint64{u.AsUint64()})
+		case op == "eq" && need(4):
+			return c20B(u.Equals(v))
+		case op == "lt" && need(4):
+			return c20B(u.LessThan(v))
+		case op == "gt" && need(4):
+			return c20B(u.GreaterThan(v))
+		case op == "le" && need(4):
+			return c20B(u.LessThanOrEqual(v))
+		case op == "ge" && need(4):
+			return c20B(u.GreaterThanOrEqual(v))
 		}
 	case 4:
 		if len(a) < 4 {
@@ -312,6 +690,28 @@ func c20Run(limbs int, op string, a []uint64) string {
 			return okv(u.Uint64().VerifLimbs())
 		case op == "to128" && need(4):
 			return okv(u.Uint128().VerifLimbs())
+		case op == "to256" && need(4):
+			return okv(u.Uint256().VerifLimbs())
+		case op == "zero" && need(4):
+			return okv(u.Zero().VerifLimbs())
+		case op == "max" && need(4):
+			return okv(u.MaxValue().VerifLimbs())
+		case op == "iszero" && need(4):
+			return c20B(u.IsZero())
+		case op == "set64" && need(5):
+			return okv(u.Set64(a[4]).VerifLimbs())
+		case op == "asu64" && need(4):
+			return okv([]uint64{u.AsUint64()})
+		case op == "eq" && need(8):
+			return c20B(u.Equals(v))
+		case op == "lt" && need(8):
+			return c20B(u.LessThan(v))
+		case op == "gt" && need(8):
+			return c20B(u.GreaterThan(v))
+		case op == "le" && need(8):
+			return c20B(u.LessThanOrEqual(v))
+		case op == "ge" && need(8):
+			return c20B(u.GreaterThanOrEqual(v))
 		}
 	}
 	return bad
@@ -348,10 +748,13 @@ func c20Oracle(limbs int, w, op string, a []uint64, res string) []Fail {
 		x := toBig(a[:limbs])
 		n := uint(a[limbs])
 		var want *big.Int
-		if op == "shl" {
+		switch {
+		case a[limbs] >= uint64(64*limbs): // every bit is moved out (amounts up to 2^64-1: do not build x<<n)
+			want = new(big.Int)
+		case op == "shl":
 			want = new(big.Int).Lsh(x, n)
 			want.Mod(want, mod)
-		} else {
+		default:
 			want = new(big.Int).Rsh(x, n)
 		}
 		class := "n<=64"
@@ -377,12 +780,129 @@ func c20Oracle(limbs int, w, op string, a []uint64, res string) []Fail {
 			}
 		}
 		return expectVal("", want)
-	case "add64", "mul64":
+	case "add64", "sub64", "mul64":
+		if limbs == 1 { // carry forms of Uint64: (value, carry)
+			var v, cy uint64
+			if n, _ := fmt.Sscanf(res, "ok %d %d", &v, &cy); n != 2 {
+				return fail("", "expected a (value, carry) pair, got %s", res)
+			}
+			x, y := new(big.Int).SetUint64(a[0]), new(big.Int).SetUint64(a[1])
+			got := new(big.Int).SetUint64(v)
+			hi := new(big.Int).Lsh(new(big.Int).SetUint64(cy), 64)
+			var want *big.Int
+			switch op {
+			case "add64": // value + carry*2^64 = x + y + carryIn
+				want = new(big.Int).Add(new(big.Int).Add(x, y), new(big.Int).SetUint64(a[2]))
+				got.Add(got, hi)
+			case "sub64": // value - borrow*2^64 = x - y - borrowIn
+				want = new(big.Int).Sub(new(big.Int).Sub(x, y), new(big.Int).SetUint64(a[2]))
+				got.Sub(got, hi)
+				if cy > 1 {
+					return fail("", "borrow out %d is not 0 or 1", cy)
+				}
+			default: // value + carry*2^64 = x * y
+				want = new(big.Int).Mul(x, y)
+				got.Add(got, hi)
+			}
+			if got.Cmp(want) != 0 {
+				return fail("", "(value, carry) = %s encodes %s, exact result %s", res, got, want)
+			}
+			return nil
+		}
 		x, y := toBig(a[:limbs]), new(big.Int).SetUint64(a[limbs])
 		if op == "add64" {
 			return expectVal("", new(big.Int).Add(x, y))
 		}
 		return expectVal("", new(big.Int).Mul(x, y))
+	case "shl64", "shr64":
+		// the pair is one 128-bit register: LeftShift64 -> carry:value, RightShift64 -> value:carry.
+		// Stated for n < 128 (beyond that the Go code logs an overflow warning and returns 0, 0).
+		w, n, cin := new(big.Int).SetUint64(a[0]), a[1], new(big.Int).SetUint64(a[2])
+		if n >= 128 {
+			return nil
+		}
+		var v, cy uint64
+		if k, _ := fmt.Sscanf(res, "ok %d %d", &v, &cy); k != 2 {
+			return fail("", "expected a (value, carry) pair, got %s", res)
+		}
+		m128 := new(big.Int).Lsh(big.NewInt(1), 128)
+		var got, want *big.Int
+		class := "n<64"
+		if n >= 64 {
+			class = "n>=64"
+		}
+		if op == "shl64" {
+			// carry*2^64 + value = (w*2^n + carryIn mod 2^n) mod 2^128
+			got = new(big.Int).Add(new(big.Int).Lsh(new(big.Int).SetUint64(cy), 64), new(big.Int).SetUint64(v))
+			low := new(big.Int).Mod(cin, new(big.Int).Lsh(big.NewInt(1), uint(n)))
+			want = new(big.Int).Add(new(big.Int).Lsh(w, uint(n)), low)
+			want.Mod(want, m128)
+		} else {
+			// value*2^64 + carry = (w*2^64) >> n  +  (the high n bits of carryIn, in place)*2^64
+			got = new(big.Int).Add(new(big.Int).Lsh(new(big.Int).SetUint64(v), 64), new(big.Int).SetUint64(cy))
+			k := uint(0)
+			if n < 64 {
+				k = uint(64 - n)
+			}
+			top := new(big.Int).Lsh(new(big.Int).Rsh(cin, k), k)
+			want = new(big.Int).Add(new(big.Int).Rsh(new(big.Int).Lsh(w, 64), uint(n)), new(big.Int).Lsh(top, 64))
+		}
+		if got.Cmp(want) != 0 {
+			return fail(class, "(value, carry) = %s encodes %s, exact result %s", res, got, want)
+		}
+	case "mod":
+		x, y := toBig(a[:limbs]), toBig(a[limbs:])
+		if y.Sign() == 0 {
+			return nil
+		}
+		if exp := okv(fromBig(new(big.Int).Rem(x, y), limbs)); res != exp {
+			return fail("", "expected %s got %s", exp, res)
+		}
+	case "div64", "mod64":
+		x, y := toBig(a[:limbs]), new(big.Int).SetUint64(a[limbs])
+		if y.Sign() == 0 {
+			return nil
+		}
+		q, r := new(big.Int).QuoRem(x, y, new(big.Int))
+		exp := okv(fromBig(q, limbs))
+		if op == "mod64" {
+			exp = okv([]uint64{r.Uint64()})
+		}
+		if res != exp {
+			return fail("", "expected %s got %s", exp, res)
+		}
+	case "zero", "max", "zerouint", "oneuint", "from64", "set64":
+		var want *big.Int
+		switch op {
+		case "zero", "zerouint":
+			want = big.NewInt(0)
+		case "oneuint":
+			want = big.NewInt(1)
+		case "max":
+			want = new(big.Int).Sub(mod, big.NewInt(1))
+		default:
+			want = new(big.Int).SetUint64(a[len(a)-1])
+		}
+		if exp := okv(fromBig(want, limbs)); res != exp {
+			return fail("", "expected %s got %s", exp, res)
+		}
+	case "iszero":
+		if exp := c20B(toBig(a[:limbs]).Sign() == 0); res != exp {
+			return fail("", "expected %s got %s", exp, res)
+		}
+	case "eq", "lt", "gt", "le", "ge":
+		k := toBig(a[:limbs]).Cmp(toBig(a[limbs:]))
+		want := map[string]bool{"eq": k == 0, "lt": k < 0, "gt": k > 0, "le": k <= 0, "ge": k >= 0}[op]
+		if exp := c20B(want); res != exp {
+			return fail("", "expected %s got %s", exp, res)
+		}
+	case "asu64":
+		x := toBig(a[:limbs])
+		if x.BitLen() <= 64 { // value fits: must be preserved
+			if exp := okv(fromBig(x, 1)); res != exp {
+				return fail("", "expected %s got %s", exp, res)
+			}
+		}
 	case "div":
 		x, y := toBig(a[:limbs]), toBig(a[limbs:])
 		if y.Sign() == 0 {
